@@ -132,7 +132,7 @@ def cases(tier):
     # the real engines (SEA, DE, SHADE, CMA-ES) along real histories, both directions, plateau objective (ties) included
     from .trun import run_cases
     from .tstep import tree_cases
-    tc = [c for c in tree_cases(PROPERTY, tier, hibernation_values=(False,)) if any(k in c["name"] for k in ("shade", "de-", "ea-cma", "terrace", ".g3"))]
+    tc = [c for c in tree_cases(PROPERTY, tier, hibernation_values=(False,)) if any(k in c["name"] for k in ("shade", "de", "ea-cma", "terrace", ".g3"))]
     rc = run_cases(PROPERTY, tier, hib_values=(False,))
     for c in tc + rc:
         cs.append(c)
